@@ -60,23 +60,29 @@ Definition bad_pair (xlsx : bool) (parent : kind) (pos : position) (child : kind
   | _, _, _ => false
   end.
 
-(* ---- the formula the table comes from: "printed bare" and "rank above what the position takes" *)
-Definition bad_child (xlsx : bool) (e : ast) : bool :=
+(* ---- the formula the table comes from: "printed bare" and "rank above what the position takes",
+   for any parenthesis policy *)
+Definition bad_child_with (pol : policy) (xlsx : bool) (e : ast) : bool :=
   match e with
-  | ECmp _ l r => (8 <? rank_x xlsx l)%nat || (7 <? rank_x xlsx r)%nat
-  | EConcat l r => (7 <? rank_x xlsx l)%nat || (6 <? rank_x xlsx r)%nat
-  | ESum op l r => (negb (sum_left_parens l) && (6 <? rank_x xlsx l)%nat)
-                   || (negb (sum_right_parens op r) && (5 <? rank_x xlsx r)%nat)
-  | EProd _ l r => (negb (prod_left_parens l) && (5 <? rank_x xlsx l)%nat)
-                   || (negb (prod_right_parens r) && (4 <? rank_x xlsx r)%nat)
-  | EPow l r => (negb (pow_left_parens l) && (4 <? rank_x xlsx l)%nat)
-                || (negb (pow_right_parens r) && (3 <? rank_x xlsx r)%nat)
-  | ENeg c => negb (neg_parens c) && (2 <? rank_x xlsx c)%nat
-  | EPct c => match c with ENeg _ | EPct _ => false | _ => (2 <? rank_x xlsx c)%nat end
-  | ERangeOp l r => (1 <? rank_x xlsx l)%nat || (0 <? rank_x xlsx r)%nat
-  | EAt _ c | ESpill c => negb xlsx && (0 <? rank_x xlsx c)%nat
+  | ECmp _ l r => (negb (pol_cmp_l pol l) && (8 <? rank_x xlsx l)%nat)
+                  || (negb (pol_cmp_r pol r) && (7 <? rank_x xlsx r)%nat)
+  | EConcat l r => (negb (pol_concat_l pol l) && (7 <? rank_x xlsx l)%nat)
+                   || (negb (pol_concat_r pol r) && (6 <? rank_x xlsx r)%nat)
+  | ESum op l r => (negb (pol_sum_l pol l) && (6 <? rank_x xlsx l)%nat)
+                   || (negb (pol_sum_r pol op r) && (5 <? rank_x xlsx r)%nat)
+  | EProd _ l r => (negb (pol_prod_l pol l) && (5 <? rank_x xlsx l)%nat)
+                   || (negb (pol_prod_r pol r) && (4 <? rank_x xlsx r)%nat)
+  | EPow l r => (negb (pol_pow_l pol l) && (4 <? rank_x xlsx l)%nat)
+                || (negb (pol_pow_r pol r) && (3 <? rank_x xlsx r)%nat)
+  | ENeg c => negb (pol_neg pol c) && (2 <? rank_x xlsx c)%nat
+  | EPct c => negb (pol_pct pol c) && (3 <? rank_x xlsx c)%nat      (* "-x%" and "x%%" are fine *)
+  | ERangeOp l r => (negb (pol_range_l pol l) && (1 <? rank_x xlsx l)%nat)
+                    || (negb (pol_range_r pol xlsx r) && (0 <? rank_x xlsx r)%nat)
+  | EAt _ c => negb xlsx && negb (pol_at pol c) && (0 <? rank_x xlsx c)%nat
+  | ESpill c => negb xlsx && negb (pol_spill pol c) && (0 <? rank_x xlsx c)%nat
   | _ => false
   end.
+Definition bad_child (xlsx : bool) (e : ast) : bool := bad_child_with stringify_policy xlsx e.
 
 (* the same, through the table *)
 Definition bad_child_table (xlsx : bool) (e : ast) : bool :=
@@ -88,17 +94,18 @@ Definition bad_child_table (xlsx : bool) (e : ast) : bool :=
   | _ => false
   end.
 
-Fixpoint no_bad (xlsx : bool) (e : ast) : bool :=
-  negb (bad_child xlsx e) &&
+Fixpoint no_bad_with (pol : policy) (xlsx : bool) (e : ast) : bool :=
+  negb (bad_child_with pol xlsx e) &&
   match e with
   | ERangeOp l r | EConcat l r | ESum _ l r | EProd _ l r | EPow l r | ECmp _ l r =>
-      no_bad xlsx l && no_bad xlsx r
-  | EFun _ args | ENamedFun _ _ args => forallb (no_bad xlsx) args
-  | ELambdaDef _ body => no_bad xlsx body
-  | ELambdaCall lam args => no_bad xlsx lam && forallb (no_bad xlsx) args
-  | EAt _ c | ESpill c | ENeg c | EPct c => no_bad xlsx c
+      no_bad_with pol xlsx l && no_bad_with pol xlsx r
+  | EFun _ args | ENamedFun _ _ args => forallb (no_bad_with pol xlsx) args
+  | ELambdaDef _ body => no_bad_with pol xlsx body
+  | ELambdaCall lam args => no_bad_with pol xlsx lam && forallb (no_bad_with pol xlsx) args
+  | EAt _ c | ESpill c | ENeg c | EPct c => no_bad_with pol xlsx c
   | _ => true
   end.
+Definition no_bad (xlsx : bool) (e : ast) : bool := no_bad_with stringify_policy xlsx e.
 
 (* all bad pairs of a tree, in preorder (for reports) *)
 Fixpoint bad_pairs (xlsx : bool) (e : ast) : list (kind * position * kind) :=
@@ -338,7 +345,7 @@ Section Image.
   Definition image (e : ast) : bool := image_at false e.
 
   (* [stringify] prints the name of a NamedFunctionKind in lower case: the tree comes back only
-     if the name was in lower case already (finding F32) *)
+     if the name was in lower case already (finding F62) *)
   Fixpoint lower_stable (e : ast) : bool :=
     match e with
     | ENamedFun _ name args => text_eqb (nm_lower nm name) name && forallb lower_stable args
